@@ -141,7 +141,9 @@ def run_instance(cid, inst_index, tier, seed=0, repo_src=None, native_trials=0, 
     try:
         ctxs, k0 = _run_paths(world, con, inst, "sym")
     except Undecided as e:
-        res["undecided"].append({"obligation": f"{cid}[{label}]", "reason": f"{e}"})
+        # outside the verifier's reach (library function without a contract stub, unsupported construct):
+        # the bounded stand-in takes over -- the contract evaluated on the real code for sampled small inputs
+        _bounded_fallback(world, con, inst, label, res, repo_src, seed, prop, f"{e}")
         res["wall_s"] = time.time() - t0
         return res
     except Exception:  # noqa: BLE001
@@ -224,6 +226,42 @@ def run_instance(cid, inst_index, tier, seed=0, repo_src=None, native_trials=0, 
     if os.environ.get("PYVC_PROFILE") and res["wall_s"] > 3:
         print(f"PROFILE {cid}[{label}] wall={res['wall_s']:.1f} solver={res['solver_s']:.1f} obligations={len(res['obligations'])} slowest={sorted(((o['secs'], o['id'].split('#')[1][:40]) for o in res['obligations']), reverse=True)[:3]}", flush=True)
     return res
+
+
+def _bounded_fallback(world, con, inst, label, res, repo_src, seed, prop, reason):
+    """bounded stand-in for a contract instance that could not be executed symbolically: up to 24 usable sampled
+    small inputs (sizes as sampled by the contract's own generators; samples outside the contract's preconditions are skipped), at most 120 s.  A failing clause is a
+    violation with the failing input; passing trials are reported as BOUNDED-ONLY and never counted as proved;
+    no usable trial leaves the instance undecided."""
+    cid = con.cid
+    native = NativeBackend(repo_src)
+    ok = 0
+    t_start = time.time()
+    budget = float(os.environ.get("PYVC_FALLBACK_BUDGET_S", "120"))
+    for t in range(600):
+        if ok >= 24 or time.time() - t_start > budget:
+            break
+        try:
+            st, kn = native_trial(world, con, inst, native, sizes=None, seed=seed * 104729 + t)
+        except Exception:  # noqa: BLE001
+            st, kn = "error", None
+        if st == "skip":
+            continue
+        if st == "fail":
+            nm = kn.failures[0].split(":")[0]
+            oid = f"{cid}#{nm}[{label}]"
+            path = write_replay(prop, con, inst, label, oid, {"obligation": nm, "sizes": None, "inputs": kn.inputs, "failures": kn.failures, "solver_model": "", "how": f"bounded stand-in (symbolic execution undecided: {reason}): sampled small inputs on the real code"}, reproduced=True)
+            res["violations"].append({"obligation": oid, "name": nm, "status": "bounded-failed", "backend": "native", "reason": reason, "replay": path, "reproduced": True, "detail": kn.failures})
+            return
+        if st == "error":
+            res["undecided"].append({"obligation": f"{cid}[{label}]", "reason": f"{reason}; the bounded stand-in could not run the contract natively: {getattr(kn, 'error', '')[-300:]}"})
+            return
+        ok += 1
+    if ok == 0:
+        res["undecided"].append({"obligation": f"{cid}[{label}]", "reason": f"{reason}; no usable sampled input for the bounded stand-in"})
+        return
+    res["native_trials"] = ok
+    res["bounded_fallback"] = [{"instance": f"{cid}[{label}]", "reason": reason, "trials": ok}]
 
 
 def _differential(world, con, inst, k0, native, trials, seed):
